@@ -81,6 +81,10 @@ Codecs == { Struct(e, -1, sh, <<F(0, FALSE, -1, "u8"), Fc(1, t, ty, sp), F(3, TR
           \cup { Enum(e, -1, FALSE, <<Variant(0, e, -1, "unit", <<>>), Variant(1, ve, -1, "tuple", <<F(0, FALSE, -1, "u8"), Fc(1, -1, ty, sp)>>)>>) :
                   e \in Encs, ve \in Encs, ty \in {"pcd", "pce"}, sp \in {"boxed", "alias"} }
 CodecsQ == { S \in Codecs : S.kind = "enum" \/ (S.shape = "tuple" => S.fields[2].tag = -1 /\ S.fields[2].ty \in {"pcd", "pcw"}) }
+\* the four attributes of a nil-aware codec given function by function (encode_with, decode_with, nil, is_nil) in each of their 24 orders:
+\* for a "cu" field osp = "pK" asks the generator for the K-th order (it is a spelling: the expected bytes do not depend on it)
+PermNames == {"p0", "p1", "p2", "p3", "p4", "p5", "p6", "p7", "p8", "p9", "p10", "p11", "p12", "p13", "p14", "p15", "p16", "p17", "p18", "p19", "p20", "p21", "p22", "p23"}
+CodecOrders == { Struct(e, -1, "named", <<F(0, FALSE, -1, "u8"), [F(1, TRUE, -1, "cu") EXCEPT !.osp = p]>>) : e \in Encs, p \in PermNames }
 \* fields that borrow from the decoding input
 Borrowing == { Struct(e, -1, "named", <<F(0, FALSE, -1, "u8"), F(1, o, t, bty)>>) : e \in Encs, o \in BOOLEAN, t \in {-1, 7}, bty \in {"bstr", "bslice", "bu8"} }
              \cup { Struct(e, -1, sh, <<F(0, FALSE, -1, "cowbu8"), F(1, TRUE, -1, "u8")>>) : e \in Encs, sh \in {"named", "tuple"} }
@@ -101,8 +105,8 @@ EnumsQ == { S \in EnumsF : (S.tag = 7 => S.variants[2].tag = -1) /\ (S.variants[
 Big(e) == Struct(e, -1, "named", [i \in 1..25 |-> F(i - 1, TRUE, -1, "u8")])
 BigVals == { [i \in 1..25 |-> IF i \in s THEN FV(TRUE, 7, <<>>, <<>>) ELSE None] : s \in {{}, {1}, {24}, {25}, {1, 25}, 1..23, 1..24, 1..25, 2..25} }
 
-Family == IF Tier = "quick" THEN { S \in OneFieldQ : S.fields[1].idx = 0 \/ S.fields[1].ty \in {"u8", "e2", "cu"} } \cup { S \in ThreeFieldsQ : S.shape = "named" } \cup Misc \cup WideIdx \cup WideTags \cup EnumsQ \cup EnumsSame \cup OptSpell \cup Borrowing \cup CodecsQ
-          ELSE OneFieldQ \cup ThreeFieldsQ \cup Misc \cup WideIdx \cup WideTags \cup EnumsQ \cup EnumsSame \cup OptSpell \cup Borrowing \cup Codecs
+Family == IF Tier = "quick" THEN { S \in OneFieldQ : S.fields[1].idx = 0 \/ S.fields[1].ty \in {"u8", "e2", "cu"} } \cup { S \in ThreeFieldsQ : S.shape = "named" } \cup Misc \cup WideIdx \cup WideTags \cup EnumsQ \cup EnumsSame \cup OptSpell \cup Borrowing \cup CodecsQ \cup CodecOrders
+          ELSE OneFieldQ \cup ThreeFieldsQ \cup Misc \cup WideIdx \cup WideTags \cup EnumsQ \cup EnumsSame \cup OptSpell \cup Borrowing \cup Codecs \cup CodecOrders
 
 \* ---- compatible changes (reader schemas derived from a writer schema) ----
 SetField(S, i, f) == [S EXCEPT !.fields[i] = f]
